@@ -73,6 +73,15 @@ def unstakeOp (s : State) (a : Acct) (denom : String) (amt : Nat) : State × Err
   then (payOut (subStake s a denom amt) a denom amt, .ok)
   else (s, .unableToUnstake)
 
+/-- MsgUnstake with several coins (distinct denoms): every coin must be staked, all are subtracted, the locks are checked
+    ONCE on the result, then everything is paid out — or nothing happens -/
+def unstakeMultiOp (s : State) (a : Acct) (coins : List (String × Nat)) : State × Err :=
+  if coins.any (fun c => decide (s.stake a c.1 < c.2)) then (s, .stakeNotEnough)
+  else
+    let s1 := coins.foldl (fun st c => subStake st a c.1 c.2) s
+    if isValidPower s1 a (totalPower s1 a) then (coins.foldl (fun st c => payOut st a c.1 c.2) s1, .ok)
+    else (s, .unableToUnstake)
+
 def addDeleg (s : State) (a : Acct) (v : Val) (amt : Nat) : State :=
   { s with deleg := fun x w => if x = a ∧ w = v then s.deleg a v + amt else s.deleg x w }
 
